@@ -811,3 +811,25 @@ package kvgraph
 //@           (vertexChan[j].data == "" ==> o[m].Vertex == nil) &&
 //@           (vertexChan[j].data != "" ==> o[m].Vertex != nil && kvhas(vertexChan[j].data) && o[m].Vertex.ID == slnth(bsplit(vertexChan[j].data, sep0), 2))))
 //@   ensures readonly: same(kvdom(), old(kvdom())) && same(kvvals(), old(kvvals())) && kvwrites() == old(kvwrites())
+
+// ---- C03/C04: the list of graphs is a scan of the stored graph keys ------------------------
+// ListGraphs returns one name per key stored under the graph prefix, in key order - the
+// name that key spells - and writes nothing; it is what a restarted server rebuilds its
+// view of the graphs from.
+//@ func (*KVGraph).ListGraphs
+//@   vars kgraph out gPrefix it
+//@   property C03 C04
+//@   option prelude=keys,kv,idxcount
+//@   option load=kvi
+//@   option globals=kvgraph
+//@   modifies alloc KV.it SH.Str Box.
+//@   requires nonnil: kgraph != nil && kgraph.kv != nil
+//@   requires wf: forall k:Str :: kvhas(k) && hasprefix(k, GraphPrefix()) ==> nozero(slnth(bsplit(k, sep0), 1)) && k == gkeyOf(slnth(bsplit(k, sep0), 1))
+//@   loop 101 invariant store: same(kvdom(), old(kvdom())) && same(kvvals(), old(kvvals())) && kvwrites() == old(kvwrites())
+//@   loop 101 invariant shape: soff(out) == 0 && len(out) >= 0 && sref(out) >= 0 && sref(out) < alloc
+//@   loop 101 invariant iter: itvalid() ==> kvhas(itpos()) && ble(gPrefix, itpos())
+//@   loop 101 invariant scan: (itvalid() ==> len(out) == pbelow(kvdom(), gPrefix, itpos())) && (!itvalid() ==> len(out) == pcount(kvdom(), gPrefix))
+//@   loop 101 invariant elems: forall j :: 0 <= j && j < len(out) ==> kvhas(gkeyOf(out[j]))
+//@   ensures all: len(result) == pcount(kvdom(), GraphPrefix())
+//@   ensures stored: forall j :: 0 <= j && j < len(result) ==> kvhas(gkeyOf(result[j]))
+//@   ensures readonly: same(kvdom(), old(kvdom())) && same(kvvals(), old(kvvals())) && kvwrites() == old(kvwrites())
